@@ -50,8 +50,9 @@ def _call(route: str, text: str, bom: bool, opts: Dict[str, bool], tmpdir: str):
     if route not in ('parse_file_str', 'parse_file_path', 'parse_file_file', 'parse_file_file_utf16'):
         if opts['allow']:
             kw['allow_properties'] = True
-        if opts['custom']:
+        if opts['custom'] in ('sql', 'both'):
             kw['sql_renderer'] = CustomSQL
+        if opts['custom'] in ('dbml', 'both'):
             kw['dbml_renderer'] = CustomDBML
     src = ('\ufeff' if bom else '') + text
     fn = os.path.join(tmpdir, 'doc.dbml')
@@ -114,12 +115,10 @@ def _call(route: str, text: str, bom: bool, opts: Dict[str, bool], tmpdir: str):
         db = PyDBML(PurePosixPath(fn), **kw)
     else:
         raise RuntimeError(route)
-    if db.sql_renderer is CustomSQL and db.dbml_renderer is CustomDBML:
-        rend = 'custom'
-    elif db.sql_renderer is DefaultSQLRenderer and db.dbml_renderer is DefaultDBMLRenderer:
-        rend = 'default'
-    else:
-        rend = 'mixed'
+    s_ = 'custom' if db.sql_renderer is CustomSQL else ('default' if db.sql_renderer is DefaultSQLRenderer else 'other')
+    d_ = 'custom' if db.dbml_renderer is CustomDBML else ('default' if db.dbml_renderer is DefaultDBMLRenderer else 'other')
+    rend = {('default', 'default'): 'none', ('custom', 'default'): 'sql', ('default', 'custom'): 'dbml',
+            ('custom', 'custom'): 'both'}.get((s_, d_), 'other:%s/%s' % (s_, d_))
     return db, rend
 
 
@@ -162,7 +161,7 @@ def main(argv: List[str]) -> int:
                     for bom in (False, True):
                         for allow in (False, True):
                             tid += 1
-                            items[tid] = {'tid': tid, 'doc': [], 'route': route, 'bom': bom, 'opts': {'allow': allow, 'custom': allow},
+                            items[tid] = {'tid': tid, 'doc': [], 'route': route, 'bom': bom, 'opts': {'allow': allow, 'custom': ('none', 'both', 'sql', 'dbml')[(2 * allow + bom + len(route)) % 4]},
                                           'fseed': None, 'pinned': {}, 'seed': seed, 'want': 'route', 'allow': allow, 'variant': 'empty'}
                 continue
             # content with the Unicode line separators that str.splitlines() honours: a route that
@@ -174,8 +173,8 @@ def main(argv: List[str]) -> int:
             for route in ROUTES + BAD:
                 for bom in (False, True):
                     for allow in (False, True):
-                        for custom in (False, True):
-                            if route in BAD and (custom or bom):
+                        for custom in ('none', 'sql', 'dbml', 'both'):
+                            if route in BAD and (custom != 'none' or bom):
                                 continue
                             tid += 1
                             items[tid] = {'tid': tid, 'doc': doc, 'route': route, 'bom': bom, 'opts': {'allow': allow, 'custom': custom},
